@@ -167,6 +167,21 @@ class FileSplicer:
                     self.ed.replace(t_.start, t_.end, 'vx_u%d' % nu); nu += 1; applied.append('N6')
                 k_ += 1
         subs = d.subs
+        # `$LET(<tokens>)` in a directive's text stands for the identifier bound by the first `let [mut] X = <tokens>..` of this fn:
+        # contract text that has to name a local (loop invariants over a builder value) follows a renamed local
+        if it.body_open >= 0 and any('$LET(' in (x.text or '') for x in subs):
+            def _let_name(m):
+                pat = pat_tokens(m.group(1))
+                k_ = it.body_open + 1
+                while k_ < it.body_close:
+                    if src.is_id(k_, 'let'):
+                        n_ = k_ + 1
+                        if src.is_id(n_, 'mut'): n_ += 1
+                        if src.t(n_).kind == 'ident' and src.is_p(n_ + 1, '=') and [src.t(n_ + 2 + j_).text for j_ in range(len(pat))] == pat:
+                            return src.t(n_).text
+                    k_ += 1
+                raise SpliceError('lost anchor: fn %s has no `let X = %s`' % (key, m.group(1)))
+            subs = [vspec.Dir(x.word, x.args, re.sub(r'\$LET\(([^)]*)\)', _let_name, x.text or ''), x.line, x.subs, x.optional) for x in subs]
         props = []
         implicit = None
         for s in subs:
